@@ -860,7 +860,9 @@ func VerifC17MOpts(typ, pos, api int, reset bool) {
 		var buf bytes.Buffer
 		enc := jsontext.NewEncoder(&buf, jsontext.AllowInvalidUTF8(bU), jsontext.AllowDuplicateNames(bD))
 		err = MarshalEncode(enc, v, StringifyNumbers(bS), Deterministic(bDet))
-		out = bytes.TrimSuffix(buf.Bytes(), []byte("\n"))
+		out = bytes.TrimSuffix(append([]byte(nil), buf.Bytes()...), []byte("\n"))
+		// "cannot be reset from WITHIN": once the call has returned the caller may reset again.
+		vrt.Assert("C17/mopts/reset-allowed-after-return", !vrt.Misuse(func() { enc.Reset(new(bytes.Buffer)) }))
 	}
 	vrt.Assert("C17/mopts/called", zz17LogIs(zz17TagTo))
 	vrt.Assert("C17/mopts/options-are-the-callers", okAll && gU == bU && gD == bD && gS == bS && gDet == bDet)
@@ -1702,6 +1704,7 @@ func VerifC17UOpts(typ, pos, api int, reset bool) {
 		dec := jsontext.NewDecoder(bytes.NewReader(in), jsontext.AllowInvalidUTF8(bU), jsontext.AllowDuplicateNames(bD))
 		err = UnmarshalDecode(dec, &v, StringifyNumbers(bS), RejectUnknownMembers(bR))
 		vals, ok = []int8{int8(v)}, true
+		vrt.Assert("C17/uopts/reset-allowed-after-return", !vrt.Misuse(func() { dec.Reset(bytes.NewReader(nil)) }))
 	}
 	vrt.Assert("C17/uopts/called", zz17LogIs(zz17TagFrom))
 	vrt.Assert("C17/uopts/options-are-the-callers", okAll && gU == bU && gD == bD && gS == bS && gR == bR)
